@@ -47,7 +47,7 @@ pub struct Bytes { b: Vec<u8> }
 impl View for Bytes { type V = Seq<u8>; uninterp spec fn view(&self) -> Seq<u8>; }
 impl Clone for Bytes {
     #[verifier::external_body]
-    fn clone(&self) -> (r: Bytes) ensures r@ == self@ { unimplemented!() }
+    fn clone(&self) -> (r: Bytes) ensures r == *self { unimplemented!() }
 }
 pub uninterp spec fn spec_blake2b(data: Seq<u8>) -> Seq<u8>;
 impl Bytes {
